@@ -36,6 +36,7 @@ MIN_REACH = {
     "distinct_completion_orders": {"quick": 40, "thorough": 700},
     "real_pool_cases": {"quick": 8, "thorough": 100},
     "distinct_worker_pids": {"quick": 3, "thorough": 3},
+    "sweeps_with_the_per_setting_progress_description": {"quick": 40, "thorough": 1500},
 }
 TIME_BUDGET = {"quick": 300, "thorough": 3000}
 
@@ -59,6 +60,8 @@ def _gen_case(rng, strategy):
         "flat": flat,
         "strategy": strategy,
         "values_as": rng.choice(["list", "list", "tuple", "range?", "ndarray?", "ndarray?", "dictkeys", "generator", "map", "dictvalues"]),
+        # the progress display (verbosity=2 describes every setting as it runs) must not touch what the function gets
+        "verbose": rng.random() < 0.35,
     }
 
 
@@ -226,6 +229,7 @@ def run_case(ctx, case):
     opts = {"split": case["split"], "flat": case["flat"], "verbosity": 0}
     if case.get("verbose"):
         opts["verbosity"] = 2
+        ctx.count("sweeps_with_the_per_setting_progress_description")
     pool = None
     fake = None
     if name == "shuffle_true":
